@@ -361,4 +361,35 @@ def build(torch):
                                     or (len(a[5]) == 1 and len(ints[0]) == e))
             return (lf, e == 3 and a[2] is None and "Concat" not in ops)
         F[-1].flags = convnd_flags
+    # ------------------------------------------------------------------ upsample output extents (coq/Torch/Upsample.v)
+    def oq(v):
+        return "None" if v is None else f"(Some {q(Fraction(v))})"
+
+    def up_find(a, k, want, desc):
+        import math
+        if desc.startswith("shape"):
+            scs = [v for v in a[2:] if isinstance(v, float)]
+            sp = sh(a[0])[2:]
+            if a[1] is not None and len(scs) == len(sp) and any(o != math.floor(m * s) for o, m, s in zip(a[1], sp, scs)):
+                return "output-size-ignored-when-scales-given"
+            return "scale-factor-float32-rounding"
+        return None
+
+    def up_fam(name, fn_, kind, ref, gen, scales_of, size_of, quick):
+        F.append(Fam(name, fn_, ref, gen,
+                     lambda a, k: f"(CUpsample {kind} {lz(sh(a[0]))} {lz(size_of(a) or [])} [" + "; ".join(oq(v) for v in scales_of(a)) + "])",
+                     lambda a, k, out: r3shape(out), lambda a, k: (len(sh(a[0])), size_of(a) is None, sum(v is not None for v in scales_of(a))),
+                     chk=3, mod="nn", quick=quick, thorough=quick * 8))
+        F[-1].finding = up_find
+        F[-1].shape_only = True      # interpolated values depend on the kernels' float arithmetic: extents only
+
+    up_fam("upsample_nearest1d", "aten_upsample_nearest1d", "UNearest", lambda x, o, s: A.upsample_nearest1d(x, o, s), G3.gen_upsample(1, False),
+           lambda a: [a[2]], lambda a: a[1], 24)
+    up_fam("upsample_nearest2d", "aten_upsample_nearest2d", "UNearest", lambda x, o, s1, s2: A.upsample_nearest2d(x, o, s1, s2), G3.gen_upsample(2, False),
+           lambda a: [a[2], a[3]], lambda a: a[1], 24)
+    up_fam("upsample_nearestnd_vec", "aten_upsample_nearestnd_vec", "UVec",
+           lambda x, o, s: (A.upsample_nearest1d.vec if x.dim() == 3 else A.upsample_nearest2d.vec)(x, o, s), G3.gen_upsample(0, True),
+           lambda a: a[2] or [], lambda a: a[1], 30)
+    up_fam("upsample_bilinear2d", "aten_upsample_bilinear2d", "USizeOnly", lambda x, o, ac, s1, s2: A.upsample_bilinear2d(x, o, ac, s1, s2),
+           G3.gen_upsample(2, False, align=True), lambda a: [a[3], a[4]], lambda a: a[1], 16)
     return F
